@@ -126,6 +126,28 @@ func genC02(c *Ctx) {
 			}
 		}
 	}
+	// (a4) a lifecycle element placed after the asynchronous stage whose Open fails (error / panic) while the stage's reader
+	//      sits inside a slow-to-cancel Emit; the same stream value materialised again: the failed open must have
+	//      closed the stage (stopped and joined its reader) before the terminal returns
+	for _, op := range []string{"cmap", "buf", "nest"} {
+		for _, of := range []string{"err", "panic"} {
+			for n := 2; n <= 4; n++ {
+				for park := 0; park < n-1; park++ {
+					emit(true, fmt.Sprintf("%s c=%d n=%d size=3 sync=1 mg=0 park=%d ofail=%s slowret=150 rep=%d script=-", op, 1+n%2, n+6, park, of, 2+n%2))
+				}
+			}
+		}
+	}
+	// (a5) two passes over one provider (ConcatStreams(s, s)): under every reader, alone and with an early stop
+	for _, op := range []string{"cmap", "ccons", "buf", "nest", "pipe"} {
+		for n := 0; n <= 3; n++ {
+			emit(true, fmt.Sprintf("%s c=%d n=%d size=3 sync=1 mg=0 twice=1 script=-", op, 1+n%2, n))
+			if op != "pipe" && op != "ccons" {
+				emit(true, fmt.Sprintf("%s c=2 n=%d size=3 sync=0 mg=0 twice=1 yield=1 script=-", op, n+2))
+				emit(n >= 1, fmt.Sprintf("%s c=1 n=%d size=3 sync=1 mg=0 twice=1 limit=%d script=-", op, n+1, n+2))
+			}
+		}
+	}
 	// (a3) the probe provider as the first inner stream of Concat(stream of streams) whose outer stream fails next: every
 	//      asynchronous reader on top of it
 	for _, op := range []string{"cmap", "ccons", "buf", "nest", "pipe"} {
